@@ -404,6 +404,53 @@ def rule_consumers(chk, prog, tier):
     r.exhaustive = True
 
 
+def rule_no_narrowing(chk, prog, tier):
+    """C04.j: the 64-bit value intconstexpr() returns reaches its consumer without being narrowed"""
+    r = chk.rule('C04.j', 'the value of an integer constant expression (intconstexpr: array bounds, enumerators, case labels, bit-field widths, alignments, static assertions, designators) is kept in a 64-bit variable until it is range-checked or used: '
+                 'no call site converts the result to a narrower integer type, so values that differ only above bit 31 are not confused', floor=6)
+    WIDE = ('unsigned long long', 'long long', 'unsigned long', 'long', 'size_t', 'uint64_t', 'int64_t')
+    def is_wide(q):
+        q = (q or '').replace('const ', '').strip()
+        return q in WIDE
+    for fn in prog.all_funcs():
+        # walk with ancestors
+        stack = []
+        def visit(n):
+            stack.append(n)
+            if n.get('kind') == 'CallExpr' and callee(n) == 'intconstexpr':
+                bad = None; where = None
+                # climb through value-preserving parents
+                child = n
+                for p in reversed(stack[:-1]):
+                    k = p.get('kind')
+                    if k == 'ImplicitCastExpr' and p.get('castKind') in ('IntegralCast', 'IntegralToBoolean', 'IntegralToFloating'):
+                        if not is_wide(p.get('type', {}).get('desugaredQualType') or p.get('type', {}).get('qualType')):
+                            bad = p.get('type', {}).get('qualType'); break
+                        child = p; continue
+                    if k in ('ParenExpr', 'ConditionalOperator', 'ImplicitCastExpr'):
+                        child = p; continue
+                    if k == 'CStyleCastExpr':
+                        if not is_wide(p.get('type', {}).get('desugaredQualType') or p.get('type', {}).get('qualType')): bad = 'cast to ' + p.get('type', {}).get('qualType', '?')
+                        break
+                    if k == 'BinaryOperator' and p.get('opcode') in ('*', '+', '-', '&', '|'):
+                        child = p; continue
+                    if k == 'BinaryOperator' and p.get('opcode') == '=':
+                        lhs = p['inner'][0]
+                        if not is_wide(lhs.get('type', {}).get('desugaredQualType') or lhs.get('type', {}).get('qualType')): bad = 'assigned to ' + lhs.get('type', {}).get('qualType', '?')
+                        break
+                    if k == 'VarDecl':
+                        if not is_wide(p.get('type', {}).get('desugaredQualType') or p.get('type', {}).get('qualType')): bad = 'initialises ' + p.get('type', {}).get('qualType', '?')
+                        break
+                    break
+                r.instance(bad is None, 'intconstexpr-result:%s' % fn['name'], '%s:%s' % (fn.get('_file'), n.get('line')),
+                           'the result of intconstexpr() is narrowed (%s) before it is checked or used' % bad)
+            for c in n.get('inner', []) or []:
+                if isinstance(c, dict): visit(c)
+            stack.pop()
+        visit(fn)
+    r.exhaustive = True
+
+
 def rule_condfold(chk, prog, tier):
     r = chk.rule('C04.g', 'a conditional expression with an arithmetic constant condition is folded to the arm C selects - integer conditions by value != 0, floating conditions by comparison with 0 (never by bit pattern) - so that it is a constant expression wherever one is needed; any other condition is left for run-time evaluation', floor=10)
     fn = prog.require_func('condexpr')
@@ -577,5 +624,10 @@ def run(chk, tier):
     chk.guard('C04.g', lambda: rule_condfold(chk, prog, tier))
     chk.guard('C04.h', lambda: rule_const_text(chk, prog, tier))
     chk.guard('C04.i', lambda: rule_binary_values(chk, prog, tier))
+    chk.guard('C04.j', lambda: rule_no_narrowing(chk, prog, tier))
+    from props import c05, c10
+    chk.guard('C05.d', lambda: c05.rule_literals(chk, prog, tier))            # the type of an integer literal (by base, suffix, magnitude) decides how the expressions built from it fold
+    chk.guard('C05.d2', lambda: c05.rule_literal_base(chk, prog, tier))       # ... and primaryexpr has to hand inttype the right base
+    chk.guard('C10.h', lambda: c10.rule_staticassert(chk, prog, tier))        # static assertions are one of the folding contexts
     from props import c07
     chk.guard('C07.b', lambda: c07.rule_emitdata(chk, prog, tier))
